@@ -84,6 +84,10 @@ fn main() {
                 println!("ENGINE-ERROR: {msg}");
                 std::process::exit(2);
             }
+            Err(CaseError::Skip(reason)) => {
+                println!("replay {}: case cannot decide this property on this tree ({reason})", path.display());
+                std::process::exit(0);
+            }
         }
     }
     let code = runner::parent_main(property.as_ref(), tier, seed);
